@@ -139,6 +139,7 @@ func init() {
 		c07Diagnostics(w, r)
 		c07DependenciesFirst(w, wc, r)
 		wireBracketBalance(w, wc, r, "C07", map[string]bool{"code": true, "test": true})
+		wireOneByteEndian(w, wc, r, "C07")
 		wireTemplateTaint(w, wc, r, "C07", []string{"go", "rust", "java", "python", "cpp", "lua"})
 		wireAssumptions(r)
 	})
